@@ -135,6 +135,8 @@ def run(check):
             check.violation("a file whose annotations are spelled `# [typeshare]` is skipped: its annotated struct is silently omitted",
                             case={"source": "# [typeshare]\npub struct S { pub a: u8 }\n"}, impl=w, failing_input=True)
     cli_part(check, cases)
+    if not check.violations:
+        merged_part(check, cases)
     check.assumptions += ["the emission clause (each back end prints every parsed item and member once) rests on the byte-exact back-end correspondence of C01/C02/C09 and the model's structure (a map over the parsed lists)"]
 
 
@@ -167,6 +169,38 @@ def cli_part(check, cases):
                                             case={"source": c["text"], "lang": lang}, impl={"output": text[-3000:]}, failing_input=True)
             elif r["rc"] not in (0, 1) or r["timed_out"]:
                 pass    # crashes are C07's business
+
+
+def merged_part(check, cases):
+    """several files merged into one output: an ungeneratable annotated item in any of them is reported (never silently
+    dropped) whatever the arrival order of the per-file results; without it every file's items are in the output"""
+    rng = check.rng
+    good = [c for c in cases if "#[typeshare" in c["text"] and not c["tos"]]
+    BAD = "#[typeshare]\npub struct Pair(pub String, pub u32);\n\n#[typeshare]\npub struct Kept { pub a: u8 }\n"
+    for idx in range(12 if check.thorough else 6):
+        lang = LANGS[idx % len(LANGS)]
+        picks = rng.sample(good, min(3, len(good)))
+        with_bad = idx % 3 != 2
+        for order in ("rev", "seed:%d" % idx, None):
+            with Scratch() as sc:
+                for k, c in enumerate(picks):
+                    sc.write("proj/src/f%d.rs" % k, c["text"])
+                if with_bad:
+                    sc.write("proj/src/bad.rs", BAD)
+                out = sc.path("out." + EXT[lang])
+                r = run_cli(["--lang", lang, "-o", out] + lang_args(lang) + [sc.path("proj")], cwd=sc.dir,
+                            env={"TYPESHARE_VERIF_ORDER": order} if order else None)
+                text = open(out, encoding="utf-8").read() if os.path.exists(out) else ""
+            check.saw(("merged", lang, idx, order), nontrivial=True)
+            check.count("merged-" + ("with-ungeneratable" if with_bad else "clean"))
+            if r["timed_out"] or r["rc"] not in (0, 1):
+                continue        # crashes are C07's business
+            if with_bad and (r["rc"] == 0 or "bad.rs" not in r["err"] + r["out"]):
+                check.violation("%s: a tuple struct with two fields in one of %d merged files is neither generated nor reported "
+                                "(exit status %s, arrival order %s)" % (lang, len(picks) + 1, r["rc"], order or "as delivered"),
+                                case={"files": {"f%d.rs" % k: c["text"] for k, c in enumerate(picks)} | {"bad.rs": BAD}, "lang": lang, "order": order},
+                                impl={"rc": r["rc"], "stderr": r["err"][-1500:], "output": text[-1500:]}, failing_input=True)
+                return
 
 
 def find_item(items, name):
